@@ -12,10 +12,11 @@ from ..veq import veq
 
 LEVEL = "fault_enumeration"
 FOOT = 64
-RULE = ("messages = {trailing, Pointer-placed, Prefixed-enclosed, nested-after-header} x digest {Byte/sum8, Int32ub/crc32, Bytes(16)/md5, Bytes(20)/sha1, "
+RULE = ("messages = {trailing, Pointer-placed, Prefixed-enclosed, nested-after-header, fixed-position footer written first} x digest {Byte/sum8, Int32ub/crc32, Bytes(16)/md5, Bytes(20)/sha1, "
         "Bytes(32)/sha256, Byte[4]/md5 prefix as list} x inner {fixed, length-dependent, terminated, nested, array} x generated values; every message is "
-        "built, parsed back, and re-parsed under EVERY single-bit flip; RawCopy instances at stream offsets 0..9, inside substreams, parse/build/"
-        "build-from-data/rebuild-after-edit/file round trip. non-trivial = a flip inside a variable-length inner construct or inside a substream, "
+        "built, parsed back, edited and rebuilt from the parsed container (the documented workflow), and re-parsed under EVERY single-bit flip; RawCopy "
+        "instances at stream offsets 0..9, inside Prefixed/FixedSized/NullTerminated(each option) substreams, parse/build/build-from-data/rebuild-after-edit/"
+        "build into a stream that already extends beyond the region/file round trip. non-trivial = a flip inside a variable-length inner construct or inside a substream, "
         "or a RawCopy at a non-zero offset; distinct by (format, inner, digest, value, bit)")
 ASSUMPTIONS = ["when a flip makes the inner construct itself reject the region (layout destroyed), any ConstructError counts as detection; "
                "ChecksumError is required exactly when the inner construct still parses the corrupted region",
